@@ -4,7 +4,9 @@ Oracles: (1) process independence: every generated case is matched by 5 persiste
 PYTHONHASHSEED values; the canonical results (index, path keys, states, probability) must be identical;
 (2) order independence: in-process, the same case with node order and every neighbour list permuted must give the same index and
 probability (the path may differ only among equally probable alternatives);
-(3) object reuse: a matcher that matched a different trace before must give exactly the result of a fresh matcher."""
+(3) object reuse: a matcher that matched a different trace before must give exactly the result of a fresh matcher;
+(4) a map object that was queried and matched on while it was being built (add_node / add_edge) must behave like the same map built
+without those queries."""
 import atexit
 import json
 import os
@@ -131,6 +133,40 @@ def check_case(case, ctx):
             what = "index" if c3["idx"] != c1["idx"] else ("probability" if c3["lp"] != c1["lp"] else "path")
             raise Violation(f"reuse.{what}", f"fresh matcher gives {c1}, a matcher that matched another trace before gives {c3}")
         classes.append("reused-matcher")
+    # (4) the map object was built step by step and queried in between: same content => same result
+    if case.get("incremental_map"):
+        def build_steps(interleave):
+            from leuvenmapmatching.map.inmem import InMemMap
+            g = case["graph"]
+            k = max(1, min(len(g) - 1, case["incremental_map"]))
+            first = {n[0] for n in g[:k]}
+            mp = InMemMap("m", graph={lab: ((loc[0], loc[1]), [x for x in nb if x in first]) for lab, loc, nb in g[:k]},
+                          use_latlon=False, use_rtree=False)
+            if interleave:
+                mt0 = base.mk_matcher(mp, case["config"])
+                try:
+                    mt0.match(base.to_path(case.get("decoy") or case["trace"]))
+                    mp.edges_closeto(tuple(case["trace"][0][:2]), max_dist=1.0)
+                    mp.nodes_closeto(tuple(case["trace"][0][:2]), max_dist=1.0)
+                    for lab in list(first)[:3]:
+                        mp.nodes_nbrto(lab)
+                except Exception:  # noqa  (whatever the small map answers is irrelevant here)
+                    pass
+            for lab, loc, nb in g[k:]:
+                mp.add_node(lab, (loc[0], loc[1]))
+            for lab, loc, nb in g:
+                for x in nb:
+                    if not (lab in first and x in first):
+                        mp.add_edge(lab, x)
+            return mp
+        res = []
+        for inter in (False, True):
+            mt = base.mk_matcher(base.pkg(build_steps, inter, clause="map-build-raised"), case["config"])
+            st4, i4 = base.pkg(mt.match, base.to_path(case["trace"]), unique=case.get("unique", False))
+            res.append(base.canon(mt, st4, i4))
+        if res[0] != res[1]:
+            raise Violation("map-reuse", f"map built step by step gives {res[0]}; the same steps with queries and a match in between give {res[1]}")
+        classes.append("incrementally-built-map")
     n = len(case["trace"])
     multi = any(len(d) >= 2 for col in m1.lattice.values() for d in col.o) if m1.lattice else False
     if c1["n_emit"] and c1["idx"] < n - 1:
@@ -167,5 +203,7 @@ def strategy(tier):
                         "nbr_rev": [draw(st.booleans()) for _ in range(n)]}
         case["unique"] = draw(st.booleans())
         case = draw(common.maybe_decoy(case, share=4))
+        if len(case["graph"]) >= 3 and not case.get("linked") and draw(st.integers(0, 4)) == 0:
+            case["incremental_map"] = draw(st.integers(1, len(case["graph"]) - 1))
         return case
     return _s()
